@@ -1,3 +1,381 @@
-"""vfchecks_more -- checks that are not plain fsmx explorations (registered into vfchecks.CUSTOM)."""
+"""vfchecks_more -- checks that are not plain fsmx explorations (registered into vfchecks.CUSTOM):
+C10 (plan capacity), C12 (serialization), C13 (bit stream), C14 (ids / dispatch), C16 (logging), C18 (UB / allocation), C19 (feature matrix), C20 (containers)."""
+import os, sys, json, time, subprocess, re, itertools, hashlib
 import vfchecks as vc
 from vflib import *
+from vfchecks import S, CONFIGS, M_T, M_G, M_TP, M_TP2, M_P, M_P0, M_PG, O_T, O_TALL, O_P, O_PALL, W
+
+PROBES = os.path.join(ENGINE, 'probes')
+
+def run_harness(binary, args, timeout=3000):
+    out = os.path.join(BUILD, 'r_%d_%s.json' % (os.getpid(), hashlib.sha1((binary + ' '.join(args)).encode()).hexdigest()[:8]))
+    env = dict(os.environ); env.setdefault('ASAN_OPTIONS', 'detect_leaks=0'); env.setdefault('UBSAN_OPTIONS', 'print_stacktrace=1:halt_on_error=1')
+    try:
+        p = subprocess.run([binary, '--out=' + out] + list(args), stdout=subprocess.PIPE, stderr=subprocess.PIPE, text=True, timeout=timeout, env=env)
+        rc, so, se = p.returncode, p.stdout, p.stderr
+    except subprocess.TimeoutExpired:
+        rc, so, se = -9, '', 'TIMEOUT'
+    res = None
+    if os.path.exists(out):
+        try: res = json.load(open(out))
+        except Exception: res = None
+        os.unlink(out)
+    return dict(rc=rc, stdout=so, stderr=se[-3000:], result=res)
+
+def add_seqx(V, run, name, replay_info):
+    r = run['result']
+    if r is None:
+        se = run['stderr']
+        if 'runtime error' in se or 'Sanitizer' in se:
+            first = [l for l in se.splitlines() if 'runtime error' in l or 'ERROR:' in l][:1]
+            V.add_violation('sanitizer-report', '%s: %s' % (name, first[0] if first else se[-400:]), dict(kind='harness', name=name, stderr=se[-2500:], **replay_info))
+        else:
+            V.errors.append('%s produced no result (rc=%s): %s' % (name, run['rc'], se[-800:]))
+        return
+    V.states += r['states']; V.transitions += r['transitions']; V.validated += r['transitions']
+    V.tables.append({k: r.get(k) for k in r if k not in ('witnesses', 'samples')} | {'name': name})
+    if not r['exhaustive']: V.exhaustive = False; V.caps.append(name + ': deadline')
+    for s in r.get('samples', [])[:2]: V.samples.append({'harness': name, 'case': s})
+    seen = set()
+    for w in r['witnesses']:
+        if w['pred'] in seen: continue
+        seen.add(w['pred'])
+        V.add_violation(w['pred'], '%s: %s' % (name, w['text']), dict(kind='harness', name=name, replay=w['replay'], **replay_info), count=r['violations'])
+
+def probe(V, source, defs, pred_fail, what, std='c++11', run_it=True, variant=None, extra=None):
+    """public-API probe: failing to build IS the verdict (the API named by the property cannot be used)"""
+    cmd = ['g++', '-std=' + std, '-I' + os.path.join(REPO, 'include'), '-I' + os.path.join(REPO, 'development')] + ['-D' + d for d in defs] + (extra or [])
+    src = os.path.join(PROBES, source)
+    key = hashlib.sha1(json.dumps([repo_fingerprint(), open(src).read(), cmd]).encode()).hexdigest()[:16]
+    out = os.path.join(BUILD, 'p_' + key)
+    if not os.path.exists(out):
+        p = subprocess.run(cmd + [src, '-o', out + '.tmp'], stdout=subprocess.PIPE, stderr=subprocess.STDOUT, text=True)
+        if p.returncode != 0:
+            lines = [l for l in p.stdout.splitlines() if 'error' in l or 'undefined reference' in l]
+            V.add_violation(pred_fail, '%s: the program does not build: %s' % (what, (lines[0] if lines else p.stdout[-300:])[:500]), dict(kind='probe', source=source, defs=defs, std=std, cmd=' '.join(cmd + [src]), output=p.stdout[-3000:]))
+            return False
+        os.replace(out + '.tmp', out)
+    V.transitions += 1; V.validated += 1
+    if run_it:
+        p = subprocess.run([out], stdout=subprocess.PIPE, stderr=subprocess.STDOUT, text=True)
+        if p.returncode != 0:
+            V.add_violation(pred_fail + '-behaviour', '%s: %s' % (what, p.stdout[-500:]), dict(kind='probe', source=source, defs=defs, std=std, cmd=' '.join(cmd + [src]), output=p.stdout[-3000:]))
+            return False
+        V.samples.append({'probe': source, 'defs': defs, 'output': p.stdout.strip()[-200:]})
+    return True
+
+def replay_probe(r):
+    print(r.get('cmd', '')); print(r.get('output', '')[-3000:])
+    p = subprocess.run(r['cmd'].split() + ['-o', os.path.join(BUILD, 'replay_probe')], stdout=subprocess.PIPE, stderr=subprocess.STDOUT, text=True)
+    print(p.stdout[-3000:])
+    if p.returncode != 0: return 1
+    p = subprocess.run([os.path.join(BUILD, 'replay_probe')]); return 1 if p.returncode else 0
+vc.REPLAYERS['probe'] = replay_probe
+
+def replay_harness(r):
+    binary = build(r['source'], r.get('defs', []), variant=r.get('variant', 'plain'), header=r.get('header', 'shipped'), access=r.get('access', True))
+    cmd = [binary] + r.get('args', []) + ['--replay=' + r.get('replay', '')]
+    print(' '.join(cmd)); p = subprocess.run(cmd); return 1 if p.returncode else 0
+vc.REPLAYERS['harness'] = replay_harness
+
+# =========================================================================== C10
+CONFIGS['P8'] = cfg(N=2, HEAD=1, CAP=4, L=1, CTX=0, feats=('PLANS',))
+CONFIGS['P9'] = cfg(N=3, HEAD=0, CAP=0, L=1, CTX=0, feats=('PLANS',))
+M_PL = mf('PHASE_REQ', 'REPORT', 'PLAN_EDIT', 'LIFE_EDIT')
+O_PL = og('CORE', 'PLAN', 'REPORT', 'PLAN_REMOVE', 'LOG')
+
+@vc.custom('C10')
+def check_c10(tier):
+    V = Verdict('C10', tier)
+    V.assumptions = ['plan edits are made on an active machine', 'TaskCapacityN<255> is the library\'s "use the state count" sentinel (DESIGN.md O1): explicit capacities are checked on 1..254']
+    firstlast = probe(V, 'probe_plan_firstlast.cpp', [], 'plan-first-last-unusable', 'first()/last() of the mutable plan (Instance::plan(), control.plan())')
+    extra = ['VX_PLAN_FIRSTLAST'] if firstlast else []
+    # plan through a real machine
+    specs = [S('P5', 1, M_PL, O_PL), S('P6', 1, M_PL, O_PL), S('P3', 2, M_PL, O_PL), S('P7', 1, M_PL | mf('PAYLOAD'), O_PL | og('PAYLOAD'))]
+    if tier == 'thorough': specs = [S('P5', 2, M_PL, O_PL, share=3), S('P6', 2, M_PL, O_PL, share=3), S('P3', 3, M_PL, O_PL), S('P7', 1, M_PL | mf('PAYLOAD'), O_PL | og('PAYLOAD')), S('P8', 1, M_PL, O_PL, share=3), S('P9', 1, M_PL, O_PL, share=2), S('P2', 1, M_PL | mf('PAYLOAD'), O_PL | og('PAYLOAD', 'MANUAL'), share=2)]
+    saved = {}
+    for sp in specs:
+        saved[sp['cfg']] = CONFIGS[sp['cfg']]
+        CONFIGS[sp['cfg']] = CONFIGS[sp['cfg']] + extra
+    try:
+        vc.run_specs(V, specs, tier, budget=120 if tier == 'quick' else 900)
+    finally:
+        for k, v in saved.items(): CONFIGS[k] = v
+    # free list below the plan
+    for h in header_variants():
+        b = build('seqx_containers.cpp', ['VX_PART=3'], header=h, variant='plain')
+        add_seqx(V, run_harness(b, ['--what=tasklist', '--workers=%d' % NCPU] + (['--thorough'] if tier == 'thorough' else [])), 'tasklist/' + h, dict(source='seqx_containers.cpp', defs=['VX_PART=3'], header=h, args=['--what=tasklist']))
+    # capacity boundary through the public API
+    caps = [['VX_CAPN=1', 'VX_NST=2'], ['VX_CAPN=2', 'VX_NST=1'], ['VX_CAPN=7', 'VX_NST=3'], ['VX_CAPN=254', 'VX_NST=3'], ['VX_DEFAULT_CAP', 'VX_NST=1'], ['VX_DEFAULT_CAP', 'VX_NST=4']]
+    if tier == 'thorough': caps += [['VX_CAPN=%d' % c, 'VX_NST=2'] for c in (3, 8, 9, 16, 127, 128, 253)] + [['VX_DEFAULT_CAP', 'VX_NST=255'], ['VX_DEFAULT_CAP', 'VX_NST=64']]
+    else: caps += [['VX_DEFAULT_CAP', 'VX_NST=255']]
+    with ThreadPoolExecutor(max_workers=NCPU) as ex:
+        list(ex.map(lambda d: probe(V, 'plan_capacity.cpp', d, 'plan-capacity', 'fill/drain/refill/fire at capacity (%s)' % ' '.join(d), std='c++14', extra=['-O1', '-w']), caps))
+    return V.finish(rule='closure over machine states with plan edits at every callback that offers them (iterator removal of every subset of positions); closure over the full internal state of TaskListT for C<=5(6); scripted fill/drain/recycle at the boundary capacities')
+
+# =========================================================================== C12 / C14: sweep over the number of states
+N_QUICK = [1, 2, 3, 4, 5, 6, 7, 8, 9, 15, 16, 17, 31, 32, 33, 63, 64, 65, 127, 128, 129, 254, 255]
+def n_list(tier):
+    return N_QUICK if tier == 'quick' else list(range(1, 256))
+
+SWEEP_FLAVOURS = {
+    'root-auto':      ['VX_HEAD=1'],
+    'peer-manual-ser': ['VX_HEAD=0', 'VX_MANUAL=1', FEAT['SER']],
+    'root-auto-ser':  ['VX_HEAD=1', FEAT['SER']],
+}
+def sweep(V, tier, flavours, budget):
+    ns = n_list(tier)
+    jobs = []
+    for h in header_variants():
+        for fl in flavours:
+            for n in ns:
+                if fl == 'root-auto-ser' and tier == 'quick' and n not in (1, 2, 3, 8, 9, 17, 64, 255): continue
+                jobs.append((n, fl, h))
+    # big N first so that the long compiles start early; at most 8 of the huge ones in flight (memory)
+    jobs.sort(key=lambda j: -j[0])
+    t0 = time.time()
+    sem = threading.Semaphore(8)
+    def one(job):
+        n, fl, h = job
+        if time.time() - t0 > budget: return (job, None, 'deadline')
+        big = n >= 200
+        if big: sem.acquire()
+        try:
+            b, err = try_build('sweepx_n.cpp', ['VX_NSTATES=%d' % n] + SWEEP_FLAVOURS[fl], variant='plain', header=h, access=False, extra=['-O1' if n > 40 else '-O2', '-w', '-ftemplate-depth=2048'])
+        finally:
+            if big: sem.release()
+        if err: return (job, None, err)
+        return (job, run_harness(b, []), None)
+    with ThreadPoolExecutor(max_workers=NCPU) as ex:
+        results = list(ex.map(one, jobs))
+    for (n, fl, h), run, err in results:
+        if err == 'deadline':
+            V.exhaustive = False; V.caps.append('N=%d %s: not built before the deadline' % (n, fl)); continue
+        if err: raise BuildFailed(err)
+        add_seqx(V, run, 'sweep/N=%d/%s/%s' % (n, fl, h), dict(source='sweepx_n.cpp', defs=['VX_NSTATES=%d' % n] + SWEEP_FLAVOURS[fl], header=h, access=False))
+    V.extra['state_counts'] = '%d..%d (%d values)' % (ns[0], ns[-1], len(ns))
+
+import threading
+
+@vc.custom('C14')
+def check_c14(tier):
+    V = Verdict('C14', tier)
+    V.assumptions = ['callbacks of the swept machines take no decisions (dispatch only); guard-decision behaviour is the subject of C02-C04']
+    sweep(V, tier, ['root-auto', 'peer-manual-ser'], 200 if tier == 'quick' else 1700)
+    # keep only what C14 judges: drop serialization predicates reported by the shared harness
+    V.violations = [v for v in V.violations if not re.match(r'(save|load|buffer)', v['pred'])]
+    return V.finish(rule='one machine per state count N and root flavour; every ordered pair (j,k) of states is driven with immediateChangeTo and the deliveries compared with the expected four callbacks; stateId<T>() checked by static_assert for every state')
+
+CONFIGS['T2s'] = cfg(N=2, HEAD=0, MANUAL=1, PAYLOAD=0, L=2, CTX=0, feats=('SER',))
+CONFIGS['T3s'] = cfg(N=3, HEAD=1, MANUAL=1, PAYLOAD=4, L=2, CTX=1, feats=('SER',))
+SER_COMBOS = [(), ('PLANS',), ('HIST',), ('LOG',), ('VERBOSE',), ('PLANS', 'HIST'), ('HIST', 'LOG'), ('PLANS', 'HIST', 'VERBOSE'), ('PLANS', 'LOG'), ('PLANS', 'VERBOSE'), ('HIST', 'VERBOSE'), ('PLANS', 'HIST', 'LOG'), ('STRUCT', 'DBGTYPE'), ('NOTYPEINDEX', 'HIST'), ('PLANS', 'HIST', 'LOG', 'STRUCT', 'DBGTYPE', 'NOTYPEINDEX')]
+
+@vc.custom('C12')
+def check_c12(tier):
+    V = Verdict('C12', tier)
+    V.assumptions = ['buffers handed to load() were produced by save() of the same machine type', 'load() only sees the buffer: (saver state, loader state) pairs are covered as every saver state x canonical buffer and every loader state x every buffer']
+    O = O_T | og('MANUAL', 'SERIAL', 'PAYLOAD', 'REPLAY', 'COPY')
+    specs = [S('T2s', 2, M_T, O), S('T2a', 2, M_T, O), S('T3s', 1, M_TP, O)]
+    combos = SER_COMBOS[:8] if tier == 'quick' else SER_COMBOS
+    for i, c in enumerate(combos):
+        name = 'T2x%d' % i
+        CONFIGS[name] = cfg(N=2, HEAD=1, MANUAL=1, PAYLOAD=0, L=2, CTX=0, CAP=2 if 'PLANS' in c else 0, feats=('SER',) + tuple(c))
+        specs.append(S(name, 1, M_T, O | (og('PLAN', 'REPORT') if 'PLANS' in c else 0)))
+    if tier == 'thorough': specs += [S('T2', 2, M_TP, O_TALL), S('T5', 2, M_TP, O_TALL), S('T2s', 3, M_T, O), S('T3s', 2, M_TP, O)]
+    try:
+        vc.run_specs(V, specs, tier, budget=120 if tier == 'quick' else 600)
+    except BuildFailed as e:
+        # "with any combination of the other features enabled": a combination that does not compile is a verdict for this property
+        m = re.search(r'(FFSM2_ENABLE_\w+=.*?)(?:\s/|\s-o)', str(e))
+        lines = [l for l in str(e).splitlines() if 'error' in l][:2]
+        V.add_violation('feature-combination-does-not-compile', 'serialization together with other features does not compile: %s' % ' | '.join(l.strip()[:300] for l in lines), dict(kind='build', output=str(e)[-3000:]))
+    sweep(V, tier, ['peer-manual-ser', 'root-auto-ser'], 200 if tier == 'quick' else 1700)
+    V.violations = [v for v in V.violations if not re.match(r'(dispatch|access-identity|control-stateId|initial-state)', v['pred'])]
+    return V.finish(rule='fsmx: save and load(every canonical buffer) are operations of the alphabet from every reachable state; sweep: every (saver activity, loader activity) pair for each N')
+
+# =========================================================================== C13
+@vc.custom('C13')
+def check_c13(tier):
+    V = Verdict('C13', tier)
+    V.assumptions = ['field values wider than %d bits are drawn from the alphabet {0,1,max,max-1,0xAA..,0x55..,every single-bit value, every single-zero value}; narrower fields use every value' % (16 if tier == 'thorough' else 11)]
+    for h in header_variants():
+        b = build('seqx_bitstream.cpp', [], header=h, access=False, extra=['-w'])
+        add_seqx(V, run_harness(b, ['--workers=%d' % NCPU] + (['--thorough'] if tier == 'thorough' else [])), 'bitstream/' + h, dict(source='seqx_bitstream.cpp', defs=[], header=h, access=False))
+    return V.finish(rule='every cursor x width x value (see assumptions) x three prefix fillings; every pair of consecutive fields at the 8 byte offsets; closure over all write sequences for small capacities; every capacity 1..255; bitWidth for all 2^32 arguments. "states" counts distinct (cursor, content) stream states of the closures, "transitions" every verified write/argument')
+
+# =========================================================================== C20
+@vc.custom('C20')
+def check_c20(tier):
+    V = Verdict('C20', tier)
+    iter_ok = probe(V, 'probe_static_array_iter.cpp', [], 'static-array-iteration-unusable', 'begin()/end() iteration over StaticArrayT')
+    jobs = []
+    for h in header_variants():
+        for lo, hi in ((1, 64), (65, 128), (129, 192), (193, 255)):
+            jobs.append((('seqx_containers.cpp', ['VX_PART=1', 'VX_CLO=%d' % lo, 'VX_CHI=%d' % hi]), dict(header=h, extra=['-O1', '-w']), 'bitarray', h, lo, hi))
+            jobs.append((('seqx_containers.cpp', ['VX_PART=2', 'VX_CLO=%d' % lo, 'VX_CHI=%d' % hi] + (['VX_STATIC_ARRAY_ITER'] if iter_ok else [])), dict(header=h, extra=['-O1', '-w']), 'arrays', h, lo, hi))
+    built = build_many([(j[0], j[1]) for j in jobs])
+    for (a, kw, what, h, lo, hi), (b, err) in zip(jobs, built):
+        if err: raise BuildFailed(err)
+        add_seqx(V, run_harness(b, ['--what=' + what, '--workers=%d' % min(NCPU, 8)] + (['--thorough'] if tier == 'thorough' else [])), '%s[%d..%d]/%s' % (what, lo, hi, h), dict(source='seqx_containers.cpp', defs=a[1], header=h, args=['--what=' + what]))
+    return V.finish(rule='BitArrayT<C>: closure over every reachable raw content for small C (expected exactly 2^C), bounded op sequences from seeds for every other C; arrays: per-capacity scripts for C = 1..255 and two element types')
+
+# =========================================================================== C16
+CONFIGS['L1'] = cfg(N=3, HEAD=1, L=2, CTX=1, feats=('LOG',))
+CONFIGS['L2'] = cfg(N=3, HEAD=1, L=2, CTX=1, feats=('VERBOSE',))
+CONFIGS['L0'] = cfg(N=3, HEAD=1, L=2, CTX=1)
+
+@vc.custom('C16')
+def check_c16(tier):
+    V = Verdict('C16', tier)
+    d = 1 if tier == 'quick' else 2
+    OL = O_T | og('LOG')
+    specs = [S('T1', 2 if tier == 'quick' else 3, M_T, OL | og('REPLAY')), S('G1', d, M_T, OL), S('G2', d, M_T, OL), S('GP1', d, M_P0 | mf('GUARD_REQ'), O_P | og('REACT')), S('GP2', 1, M_P0, O_P), S('T2', 1, M_TP, O_TALL)]
+    vc.run_specs(V, specs, tier, budget=100 if tier == 'quick' else 600)
+    # differential: compiled out / compiled in (attached, detached, attached later) / verbose must be behaviourally identical
+    for fam, names, mfv, ogv in (('plain', ('L0', 'L1', 'L2'), M_T, O_T), ('bare', ('G0', 'G1', 'G2'), M_T, O_T), ('plans', ('GP0', 'GP1', 'GP2'), M_P0, og('CORE', 'PLAN', 'REPORT'))):
+        digs = {}
+        for h in header_variants():
+            for nm in names:
+                b = build('fsmx.cpp', CONFIGS[nm], header=h)
+                run = run_fsmx(b, nm + '/neutral', ['C16'], d, mfv, ogv | og('LOG'), workers=1, flags=['--neutral'], deadline=200)
+                rs = dict(S(nm, d, mfv, ogv)); rs['header'] = h
+                V.add_fsmx(run, nm, CONFIGS[nm], rs)
+                if run['result']: digs[(nm, h)] = (run['result']['neutral_digest'], run['result']['neutral_tuples'])
+        if len(set(digs.values())) > 1:
+            V.add_violation('logging-perturbs-behaviour', 'the set of (state, call, decisions, callbacks+observations, result) tuples differs between builds without logging, with logging and with verbose logging (%s family): %s' % (fam, {'%s/%s' % k: v for k, v in digs.items()}), dict(kind='differential', family=fam, configs=list(names)))
+        else:
+            V.extra.setdefault('logging_differentials', []).append({'family': fam, 'builds': list(names), 'tuples': list(digs.values())[0][1] if digs else 0, 'digest': list(digs.values())[0][0] if digs else ''})
+    return V.finish(rule='closure over machine states incl. attachLogger(on/off) and "attached at construction"; every edge is checked record by record; the behaviour digest (all edges with logger records removed) is compared across logging-off / logging / verbose builds')
+
+# =========================================================================== C18
+SAN = ('asan-gcc', 'asan-clang', 'msan')
+@vc.custom('C18')
+def check_c18(tier):
+    V = Verdict('C18', tier)
+    V.assumptions = ['histories respect the asserted preconditions of the library (DESIGN.md 4.3)', 'sanitizers: g++ 12 and clang 14 ASan+UBSan (no recovery), clang 14 MSan with the instance storage poisoned before construction; allocation entry points are wrapped/replaced and counted while a library call is on the stack']
+    base = [('T2', 1, M_TP, O_TALL), ('T5', 1, M_TP, O_TALL), ('T6', 1, M_TP, O_TALL), ('P5', 1, M_P, O_PALL), ('P7', 1, M_P | mf('PAYLOAD'), O_PALL), ('P3', 2, M_P, O_PALL), ('T3', 2, M_T, O_TALL), ('P2', 0, M_P0 | mf('PAYLOAD'), O_PALL)]
+    if tier == 'thorough': base = [('T2', 2, M_TP, O_TALL), ('T5', 2, M_TP, O_TALL), ('T6', 2, M_TP, O_TALL), ('T1', 2, M_T, O_TALL), ('P5', 1, M_PG, O_PALL), ('P7', 1, M_P | mf('PAYLOAD'), O_PALL), ('P3', 2, M_P, O_PALL), ('T3', 3, M_T, O_TALL), ('P2', 1, M_P0 | mf('PAYLOAD'), O_PALL), ('T4', 1, M_T, O_TALL), ('I1', 1, M_T, O_T), ('P4', 0, M_P0 | mf('PAYLOAD'), O_PALL)]
+    specs = []
+    for (c, d, m, o) in base:
+        specs.append(S(c, d, m, o, variant='plain', flags=['--copy', '--replica'], props=['C18']))     # alignment + allocation monitors, full speed
+        for v in SAN:
+            specs.append(S(c, d if tier == 'thorough' else min(d, 1), m, o, variant=v, flags=['--copy', '--replica'], props=['C18']))
+    vc.run_specs(V, specs, tier, budget=200 if tier == 'quick' else 1500)
+    # containers and the extreme machine sizes under ASan+UBSan
+    jobs = []
+    for v in ('asan-gcc', 'asan-clang'):
+        jobs.append((('seqx_bitstream.cpp', []), dict(variant=v, access=False, extra=['-w']), 'bitstream', ['--workers=%d' % NCPU]))
+        jobs.append((('seqx_containers.cpp', ['VX_PART=3']), dict(variant=v, extra=['-w']), 'tasklist', ['--what=tasklist', '--workers=%d' % NCPU]))
+        jobs.append((('seqx_containers.cpp', ['VX_PART=1', 'VX_CLO=1', 'VX_CHI=40']), dict(variant=v, extra=['-w']), 'bitarray', ['--what=bitarray', '--workers=%d' % NCPU]))
+        for n in ((1, 2, 255) if tier == 'quick' else (1, 2, 3, 9, 64, 128, 255)):
+            jobs.append((('sweepx_n.cpp', ['VX_NSTATES=%d' % n, 'VX_HEAD=0', 'VX_MANUAL=1', FEAT['SER']]), dict(variant=v, access=False, extra=['-w', '-ftemplate-depth=2048']), 'sweep N=%d' % n, []))
+    built = build_many([(j[0], j[1]) for j in jobs])
+    for (a, kw, what, args), (b, err) in zip(jobs, built):
+        if err: raise BuildFailed(err)
+        add_seqx(V, run_harness(b, args), '%s/%s' % (what, kw['variant']), dict(source=a[0], defs=a[1], variant=kw['variant'], access=kw.get('access', True), args=[x for x in args if x.startswith('--what')]))
+    V.violations = [v for v in V.violations if v['pred'] in ('sanitizer-report', 'crash', 'payload-pointer-misaligned', 'task-payload-pointer-misaligned', 'heap-allocation') or 'sanitizer' in v['pred']]
+    return V.finish(rule='the explorations of the other checks repeated in three sanitizer builds plus a plain build with the allocation and pointer-alignment monitors; a sanitizer report aborts the run and is attributed to the edge in flight')
+
+# =========================================================================== C19
+SWITCHES = ['FFSM2_ENABLE_PLANS', 'FFSM2_ENABLE_SERIALIZATION', 'FFSM2_ENABLE_TRANSITION_HISTORY', 'FFSM2_ENABLE_LOG_INTERFACE', 'FFSM2_ENABLE_VERBOSE_DEBUG_LOG', 'FFSM2_ENABLE_STRUCTURE_REPORT', 'FFSM2_ENABLE_DEBUG_STATE_TYPE', 'FFSM2_DISABLE_TYPEINDEX']
+WARN = ['-Werror', '-Wall', '-Wextra', '-Wpedantic', '-Wshadow', '-Wold-style-cast']
+
+def probe_build_run(combo, std, cxx, header):
+    defs = ['-D%s=' % s for s in combo] + (['-DVX_DEV_HEADER'] if header == 'dev' else [])
+    src = os.path.join(PROBES, 'c19_probe.cpp')
+    key = hashlib.sha1(json.dumps([repo_fingerprint(), open(src).read(), combo, std, cxx, header]).encode()).hexdigest()[:18]
+    out = os.path.join(BUILD, 'c19_' + key)
+    cmd = [cxx, '-std=' + std, '-O0'] + WARN + ['-I' + os.path.join(REPO, 'include'), '-I' + os.path.join(REPO, 'development')] + defs + [src, '-o', out]
+    if not os.path.exists(out):
+        p = subprocess.run(cmd, stdout=subprocess.PIPE, stderr=subprocess.STDOUT, text=True)
+        if p.returncode != 0:
+            return dict(ok=False, cmd=' '.join(cmd), output=p.stdout[-2500:], first=([l for l in p.stdout.splitlines() if 'error' in l] or [''])[0][:400])
+    p = subprocess.run([out], stdout=subprocess.PIPE, stderr=subprocess.STDOUT, text=True)
+    m = re.search(r'C19-DIGEST (\w+)', p.stdout)
+    try: os.unlink(out)
+    except OSError: pass
+    return dict(ok=True, digest=m.group(1) if m else 'rc=%d' % p.returncode, cmd=' '.join(cmd))
+
+@vc.custom('C19')
+def check_c19(tier):
+    V = Verdict('C19', tier)
+    V.assumptions = ['switches are defined empty (-DFFSM2_ENABLE_X=), as the documentation and the tests do (DESIGN.md O8)', 'compilers: g++ 12 and clang++ 14; MSVC-only paths are not compiled']
+    combos = [tuple(s for i, s in enumerate(SWITCHES) if (m >> i) & 1) for m in range(256)] + [('FFSM2_ENABLE_ALL',)]
+    axes = []
+    if tier == 'quick':
+        for c in combos: axes.append((c, 'c++11', 'g++', 'shipped'))
+        corners = [combos[0], combos[255], combos[256], combos[0b00101111], combos[0b00000110]]
+        for c in corners:
+            for std in ('c++14', 'c++17', 'c++20'):
+                for cxx in ('g++', 'clang++'): axes.append((c, std, cxx, 'shipped'))
+            axes.append((c, 'c++11', 'clang++', 'shipped')); axes.append((c, 'c++11', 'g++', 'dev')); axes.append((c, 'c++20', 'clang++', 'dev'))
+    else:
+        for c in combos:
+            for std in ('c++11', 'c++14', 'c++17', 'c++20'):
+                for cxx in ('g++', 'clang++'):
+                    for h in ('shipped', 'dev'): axes.append((c, std, cxx, h))
+    with ThreadPoolExecutor(max_workers=NCPU) as ex:
+        res = list(ex.map(lambda a: probe_build_run(*a), axes))
+    fails = [(a, r) for a, r in zip(axes, res) if not r['ok']]
+    digests = {}
+    for a, r in zip(axes, res):
+        if r['ok']: digests.setdefault(r['digest'], []).append(a)
+    V.transitions += len(axes); V.validated += len(axes) - len(fails); V.states += len(digests) or 1
+    V.extra['builds'] = len(axes); V.extra['build_failures'] = len(fails); V.extra['distinct_behaviour_digests'] = len(digests)
+    V.samples.append({'build': ' '.join(axes[-1][0]) or '(no switches)', 'std': axes[-1][1], 'compiler': axes[-1][2], 'header': axes[-1][3], 'digest': res[-1].get('digest')})
+    if fails:
+        # group by first error line
+        groups = {}
+        for a, r in fails: groups.setdefault(r['first'], []).append(a)
+        for first, al in groups.items():
+            a0 = al[0]
+            V.add_violation('combination-does-not-compile', '%d of %d builds fail, e.g. [%s] %s %s %s: %s' % (len(al), len(axes), ' '.join(a0[0]), a0[1], a0[2], a0[3], first), dict(kind='c19', combo=list(a0[0]), std=a0[1], cxx=a0[2], header=a0[3], failing=[[' '.join(x[0]), x[1], x[2], x[3]] for x in al[:40]]), count=len(al))
+    if len(digests) > 1:
+        maj = max(digests.values(), key=len)
+        for dg, al in digests.items():
+            if al is maj: continue
+            a0 = al[0]
+            V.add_violation('unused-feature-changes-behaviour', '%d builds behave differently from the majority, e.g. [%s] %s %s %s (digest %s)' % (len(al), ' '.join(a0[0]), a0[1], a0[2], a0[3], dg), dict(kind='c19', combo=list(a0[0]), std=a0[1], cxx=a0[2], header=a0[3]), count=len(al))
+    # exhaustive behaviour comparison on the explorer for the feature subsets (g++, c++17): neutral digests must coincide
+    sub = [(), ('PLANS',), ('SER',), ('HIST',), ('LOG',), ('VERBOSE',), ('STRUCT', 'DBGTYPE'), ('NOTYPEINDEX',), ('PLANS', 'HIST', 'LOG'), ('PLANS', 'SER', 'HIST', 'VERBOSE', 'STRUCT', 'DBGTYPE', 'NOTYPEINDEX')]
+    if tier == 'thorough': sub = [tuple(f for i, f in enumerate(('PLANS', 'SER', 'HIST', 'LOG', 'VERBOSE', 'STRUCT', 'DBGTYPE', 'NOTYPEINDEX')) if (m >> i) & 1) for m in range(256)]
+    bases = [dict(N=3, HEAD=1, L=2, CTX=1), dict(N=2, HEAD=0, MANUAL=1, PAYLOAD=4, L=2, CTX=2)]
+    if tier == 'quick': bases = bases[:2]
+    for bi, base in enumerate(bases):
+        jobs = []
+        for h in (['shipped', 'dev'] if tier == 'thorough' or not headers_identical() else ['shipped']):
+            for f in sub: jobs.append((f, h))
+        built = build_many([((('fsmx.cpp'), cfg(feats=f, **base)), dict(header=h)) for f, h in jobs])
+        nd = {}
+        def runone(x):
+            (f, h), (b, err) = x
+            if err: return (f, h, None, err)
+            return (f, h, run_fsmx(b, 'F%d[%s]/%s' % (bi, '+'.join(f), h), ['C19'], 1, M_TP if base.get('PAYLOAD') else M_T, O_T | og('PAYLOAD', 'MANUAL'), workers=1, flags=['--neutral', '--no-fresh'], deadline=120, samples=1), None)
+        with ThreadPoolExecutor(max_workers=NCPU) as ex:
+            outs = list(ex.map(runone, zip(jobs, built)))
+        for f, h, run, err in outs:
+            if err:
+                lines = [l for l in err.splitlines() if 'error' in l][:1]
+                V.add_violation('combination-does-not-compile', 'explorer harness with [%s] (%s header): %s' % (' '.join(f), h, (lines[0] if lines else err[-300:])[:400]), dict(kind='build', feats=list(f), header=h, output=err[-2500:])); continue
+            rs = dict(S('F', 1, 0, 0)); rs['header'] = h
+            V.add_fsmx(run, 'F%d' % bi, cfg(feats=f, **base), rs)
+            if run['result']: nd[(f, h)] = (run['result']['neutral_digest'], run['result']['neutral_tuples'])
+        if len(set(nd.values())) > 1:
+            ref = nd.get(((), 'shipped'))
+            odd = [k for k, v in nd.items() if v != ref][:5]
+            V.add_violation('unused-feature-changes-behaviour', 'explorer: the behaviour of a program that uses none of the features differs under %s (neutral digests %s)' % (odd, sorted(set(nd.values()))), dict(kind='differential', base=base, odd=[[list(k[0]), k[1]] for k in odd]))
+        else:
+            V.extra.setdefault('explorer_feature_differentials', []).append({'base': base, 'builds': len(nd), 'tuples': list(nd.values())[0][1] if nd else 0})
+    # the shipped header is exactly the amalgamation of the development sources
+    try:
+        am = amalgamate(); sh = shipped_header_text()
+        same = am == sh
+        V.transitions += 1; V.validated += 1
+        if not same:
+            al, sl = am.splitlines(), sh.splitlines(); i = 0
+            while i < min(len(al), len(sl)) and al[i] == sl[i]: i += 1
+            V.add_violation('shipped-header-differs-from-sources', 'include/ffsm2/machine.hpp is not what tools/join.py produces from development/: first difference at line %d: shipped "%s" vs sources "%s"' % (i + 1, (sl[i] if i < len(sl) else '<eof>')[:120], (al[i] if i < len(al) else '<eof>')[:120]), dict(kind='amalgamation', line=i + 1))
+        V.extra['amalgamation_identical'] = same
+    except Exception as e:
+        V.add_violation('amalgamation-failed', 'tools/join.py logic could not amalgamate the development sources: %s' % e, dict(kind='amalgamation'))
+    return V.finish(rule='every switch combination x standards x compilers x header variants of a feature-neutral public-API program is built with the project warning flags and run; all behaviour digests must be equal; on the explorer the complete d<=1 edge sets of a feature-neutral alphabet are compared across feature subsets; amalgamation compared byte for byte')
